@@ -204,6 +204,20 @@ func (st *state) handle(ctx *app.RequestContext) {
 		} else {
 			ctx.Response.AppendBodyString(string(b[k:]))
 		}
+	case "chunkw-prefix":
+		// a first part of the body written the buffered way (a middleware's prefix, say),
+		// then the chunked writer installed and the rest written through it
+		k := len(b) / 2
+		if p.Seed%2 == 0 {
+			ctx.Write(b[:k])
+		} else {
+			ctx.Response.AppendBodyString(string(b[:k]))
+		}
+		ctx.Response.HijackWriter(resp.NewChunkedBodyWriter(&ctx.Response, ctx.GetWriter()))
+		ctx.Write(b[k:])
+		if p.Seed%3 == 0 {
+			ctx.Flush()
+		}
 	case "chunkw-string":
 		// the chunked writer installed, the body set with the string setter
 		ctx.Response.HijackWriter(resp.NewChunkedBodyWriter(&ctx.Response, ctx.GetWriter()))
@@ -315,7 +329,7 @@ func (st *state) handle(ctx *app.RequestContext) {
 	}
 }
 
-var modes = []string{"none", "setbody", "string", "data", "append", "stream-known", "stream-unknown", "stream-limited", "chunkw", "chunkw", "json", "redirect", "file", "abortmsg", "setbodyraw", "raw-append", "chunkw-string", "chunkw-stream", "chunkw-raw", "chunkw-file", "chunkw-abort", "chunkw-abort0", "unknown-length", "stream-unknown-strip"}
+var modes = []string{"none", "setbody", "string", "data", "append", "stream-known", "stream-unknown", "stream-limited", "chunkw", "chunkw", "json", "redirect", "file", "abortmsg", "setbodyraw", "raw-append", "chunkw-string", "chunkw-stream", "chunkw-raw", "chunkw-file", "chunkw-abort", "chunkw-abort0", "chunkw-prefix", "unknown-length", "stream-unknown-strip"}
 
 // files of the sizes the programs use, created once per worker process
 var fileDir string
